@@ -26,17 +26,19 @@ type entry struct {
 }
 
 type fakeWorld struct {
-	mu      sync.Mutex
-	entries map[string]*entry
-	running *fakeDB     // the plot in progress (at most one expected)
-	events  chan string // "start <ord>", "end <ord>"
-	deleted []string    // keys of deleted entries
-	overlap bool        // two plots at once were observed
-	created int
-	auto    bool // storm mode: a plot ends by itself after a moment (completed or not), no events
-	autoN   int
-	parkDel chan struct{} // non-nil: Delete announces itself on inDel and waits here before erasing
-	inDel   chan struct{}
+	mu       sync.Mutex
+	entries  map[string]*entry
+	running  *fakeDB     // the plot in progress (at most one expected)
+	events   chan string // "start <ord>", "end <ord>"
+	deleted  []string    // keys of deleted entries
+	overlap  bool        // two plots at once were observed
+	created  int
+	auto     bool // storm mode: a plot ends by itself after a moment (completed or not), no events
+	autoN    int
+	parkDel  chan struct{} // non-nil: Delete announces itself on inDel and waits here before erasing
+	inDel    chan struct{}
+	parkPlot chan struct{} // non-nil: Plot announces itself on inPlot and waits here before anything is marked as plotting
+	inPlot   chan struct{}
 }
 
 func ekey(dir string, ord int64, pk *pocec.PublicKey, bl int) string {
@@ -96,6 +98,16 @@ func (d *fakeDB) Close() error { <-d.StopPlot(); return nil }
 
 func (d *fakeDB) Plot() chan error {
 	result := make(chan error, 1)
+	d.w.mu.Lock()
+	park, in := d.w.parkPlot, d.w.inPlot
+	d.w.mu.Unlock()
+	if park != nil { // a backend that takes a moment to start (opening files, allocating the cache)
+		select {
+		case in <- struct{}{}:
+		default:
+		}
+		<-park
+	}
 	if !atomic.CompareAndSwapInt32(&d.plotting, 0, 1) {
 		result <- errors.New("already plotting")
 		return result
